@@ -117,6 +117,27 @@ class Bag:
         return f'Bag({self.items!r})'
 
 
+class MoodyBag(Bag):
+    """A re-iterable collection whose FIRST iteration fails (at once or part-way) with a given exception; afterwards it works."""
+
+    def __init__(self, items, exc, after=0):
+        super().__init__(items)
+        self.exc, self.after, self.armed = exc, after, True
+
+    def __iter__(self):
+        if not self.armed:
+            return iter(self.items)
+        self.armed = False
+        return self._failing()
+
+    def _failing(self):
+        for i, v in enumerate(self.items):
+            if i >= self.after:
+                raise self.exc('the collection fails while it is iterated')
+            yield v
+        raise self.exc('the collection fails while it is iterated')
+
+
 def as_collection(rng, values, p=0.5):
     """The list `values` as a list, or as another re-iterable collection with the same elements in the same order."""
     if not isinstance(values, list) or rng.random() >= p:
